@@ -171,12 +171,59 @@ def _run(res, rng, tier, driver, work):
                                         "what": "JSON and pickle restore different networks",
                                         "replay": {"label": label, "json": loaded_proj["json"][:2000],
                                                    "pickle": loaded_proj["pickle"][:2000]}})
+    # the gateway's own persistence object over a history with a save in the middle: what the second save
+    # writes (it is skipped unless something marked the network changed) must load as the network held then
+    n_live = (30 if tier == "quick" else 400) * common.effort(tier)
+    for i in range(n_live):
+        version = rng.choice(["1.4", "1.5", "2.0", "2.1", "2.2"])
+        fmt = pu.FORMATS[i % 2]
+        path = os.path.join(work, f"live.{fmt}")
+        for p in (path, path + ".bak"):
+            if os.path.exists(p):
+                os.remove(p)
+        gw = pu.make_gateway(version, persistence_file=path)
+        hist = pu.history_lines(rng, version, rng.choice([4, 10, 25]))
+        cut = rng.randrange(len(hist) + 1)
+        tail = hist[cut:] + ([] if rng.random() < 0.5 else ["255;255;3;0;3;\n"])
+        try:
+            for line in hist[:cut]:
+                try:
+                    pu.feed(gw, line)
+                except Exception:  # noqa: BLE001  (other properties' business)
+                    pass
+            gw.tasks.persistence.save_sensors()
+            for line in tail:
+                try:
+                    pu.feed(gw, line)
+                except Exception:  # noqa: BLE001
+                    pass
+            gw.tasks.persistence.save_sensors()
+        except Exception as e:  # noqa: BLE001
+            res.oracle_failures.append({"key": {"kind": "save-raised", "fmt": fmt, "exc": type(e).__name__},
+                                        "what": f"save_sensors raised {type(e).__name__}: {e}",
+                                        "replay": {"label": f"live #{i}", "fmt": fmt, "lines": hist[:cut] + ["<save>"] + tail}})
+            continue
+        want = pu.project_reset(gw.sensors)
+        exc, loaded = pu.fresh_load(path)
+        res.evaluations += 1
+        res.count(f"{fmt}:live-gateway")
+        if want != "-":
+            res.distinct.add(digest(["live", fmt, want]))
+        got = "load-raised:" + type(exc).__name__ if exc is not None else pu.project(loaded)
+        if got != want:
+            res.oracle_failures.append({
+                "key": {"kind": "live-not-exact", "fmt": fmt, "field": first_diff(want, got)},
+                "what": f"{fmt}: after lines, a save, more lines and a save by the gateway's own persistence object, "
+                        f"loading the file does not give the network held ({first_diff(want, got)})",
+                "replay": {"label": f"live #{i}", "fmt": fmt, "version": version,
+                           "lines": hist[:cut] + ["<save>"] + tail, "want": want[:1500], "got": got[:1500]}})
     res.rule = (f"corpus (empty network, bare node 0, ids 1/254/255, children without values, NUL/quotes/braces/"
                 f"line separators/astral-plane text, 5000-character name, 4300-digit heartbeat, pending desired values, "
                 f"withheld lines, reboot flag; 4 networks outside the invariant) + {n_gw} networks built by feeding "
                 f"5–40 lines to a real gateway of a random protocol version + {n_direct} networks constructed from the "
                 f"real classes (0–5 nodes of ids 0,1,2,7,100,254,255, 0–3 children, 0–4 values, exotic Unicode text, "
-                f"transient smart-sleep state) × both formats. non-trivial = non-empty network; distinct by "
+                f"transient smart-sleep state) × both formats; + {n_live} live gateways (lines, save, more lines, save by the "
+                f"gateway's own persistence object, fresh load). non-trivial = non-empty network; distinct by "
                 f"(format, projection)")
     if driver is not None and lines:
         try:
